@@ -177,7 +177,7 @@ Section C02.
   Proof.
     induction ds as [|[d nl] r IH]; intros idx groups err Hg; cbn [parse_strict_loop].
     - destruct yerr; exact Hg.
-    - destruct (strict_prepass null_ok d); [exact Hg|]. unfold parse_groups.
+    - destruct (too_big d); [exact Hg|]. destruct (strict_prepass null_ok d); [exact Hg|]. unfold parse_groups.
       destruct (groups_of_roots _ _ _ _ _ _ _ _ _ _) as [e|[n1 a1]] eqn:E; [exact Hg|].
       apply IH. apply groups_wf_app; [exact Hg|]. eapply groups_of_roots_wf; [apply groups_wf_nil|exact E].
   Qed.
@@ -260,7 +260,8 @@ Section C02.
                  parse_relaxed_loop plines metric_ok lname_ok lvalue_ok lines ds0 yerr acc = Some f0 -> groups_wf (f_groups f0)).
     { induction ds0 as [|[d nl] r IH]; intros acc f0 Ha H; cbn [parse_relaxed_loop] in H.
       - inversion H; subst. exact Ha.
-      - destruct (PN (doc_fuel d) (firstn nl lines) 0 d None None) as [gs|] eqn:E; [|discriminate].
+      - destruct (too_big d); [inversion H; subst; exact Ha|].
+        destruct (PN (doc_fuel d) (firstn nl lines) 0 d None None) as [gs|] eqn:E; [|discriminate].
         eapply IH; [|exact H]. apply groups_wf_app; [exact Ha|]. eapply parse_node_wf; [|exact E]. intros g X. discriminate. }
     apply G, groups_wf_nil.
   Qed.
